@@ -59,7 +59,7 @@ def name_list(rng, enum_class, low=0, high=8):
 
 
 # ------------------------------------------------------------------------------------------ keys
-def host_key(rng, kind=None):
+def host_key(rng, kind=None, all_curves=True):
     """(library key object, RFC 4253 blob, algorithm name, key fields)"""
     key, _, _, _, alg, ckey, calg = _mods()
     kind = kind or rng.choice(['rsa', 'rsa', 'dss', 'ecdsa', 'ed25519'])
@@ -77,11 +77,20 @@ def host_key(rng, kind=None):
         fields = ref.key_fields_dss(p, q, g, y)
         cls = key.SshHostKeyDSS
     elif kind == 'ecdsa':
-        curve, size = rng.choice([('nistp256', 32), ('nistp384', 48), ('nistp521', 66)])
-        name = 'ecdsa-sha2-' + curve
+        # the three required curves by name, the others by the OID that identifies them inside the blob (RFC 5656 6.1 / 10.2);
+        # the key format names of the latter are the ones of the library's algorithm table
+        curve, size, name = rng.choice([('nistp256', 32, None), ('nistp384', 48, None), ('nistp521', 66, None)] * 2 + ([] if not all_curves else [
+            ('1.3.132.0.1', 21, 'ecdsa-sha2-nistk163'), ('1.2.840.10045.3.1.1', 24, 'ecdsa-sha2-nistp192'),
+            ('1.3.132.0.33', 28, 'ecdsa-sha2-nistp224'), ('1.3.132.0.26', 30, 'ecdsa-sha2-nistk233'),
+            ('1.3.132.0.27', 30, 'ecdsa-sha2-nistb233'), ('1.3.132.0.16', 36, 'ecdsa-sha2-nistk283'),
+            ('1.3.132.0.36', 52, 'ecdsa-sha2-nistk409'), ('1.3.132.0.37', 52, 'ecdsa-sha2-nistb409'),
+            ('1.3.132.0.38', 72, 'ecdsa-sha2-nistt571')]))
+        name = name or 'ecdsa-sha2-' + curve
         # coordinates with zero bytes at either end: the point is a fixed-width octet string (SEC 1 2.3.3)
-        x_bytes = bytes([rng.choice([0, 0, rng.randrange(256)]) if curve != 'nistp521' else rng.randrange(2)]) + rbytes(rng, size - 1)
-        y_bytes = bytes([rng.choice([0, 0, rng.randrange(256)]) if curve != 'nistp521' else rng.randrange(2)]) + rbytes(rng, size - 1)
+        top = {'nistp521': 2, '1.3.132.0.1': 8, '1.3.132.0.26': 2, '1.3.132.0.27': 2, '1.3.132.0.16': 8, '1.3.132.0.36': 2,
+               '1.3.132.0.37': 2, '1.3.132.0.38': 8}.get(curve, 256)     # field sizes that are not a whole number of octets
+        x_bytes = bytes([rng.choice([0, 0, rng.randrange(top)])]) + rbytes(rng, size - 1)
+        y_bytes = bytes([rng.choice([0, 0, rng.randrange(top)])]) + rbytes(rng, size - 1)
         if rng.random() < 0.1:
             y_bytes = y_bytes[:-1] + b'\x00'
         point = b'\x04' + x_bytes + y_bytes
@@ -148,7 +157,7 @@ def certificate(rng, valued=False, subject=None):
     certifies that very key again."""
     key, _, _, _, alg, _, _ = _mods()
     kind = subject[0] if subject else rng.choice(['rsa', 'dss', 'ecdsa', 'ed25519'])
-    _, _, key_name, fields, public, _ = subject[1] if subject else host_key(rng, kind)
+    _, _, key_name, fields, public, _ = subject[1] if subject else host_key(rng, kind, all_curves=False)
     version = subject[2] if subject else 'v00' if kind in ('rsa', 'dss') and rng.random() < 0.3 else 'v01'
     cert_name = key_name + '-cert-%s@openssh.com' % version
     signer, signer_blob, signer_name, _, _, _ = host_key(rng)
@@ -356,7 +365,7 @@ def certificate_renewed(rng):
     """The same subject key certified twice under the same certificate algorithm (a renewed certificate, or a host and a user
     certificate of one key): other serial, key id, validity, principals, signature."""
     kind = rng.choice(['rsa', 'dss', 'ecdsa', 'ed25519'])
-    subject = (kind, host_key(rng, kind), 'v01')
+    subject = (kind, host_key(rng, kind, all_curves=False), 'v01')
     return [certificate(rng, False, subject), certificate(rng, False, subject)]
 
 
